@@ -35,7 +35,7 @@ theorem all_false {α : Type} {p : α → Bool} {xs : List α} (h : xs.all p = f
 
 /-- a scalar element the column cannot hold makes the typed-array construction fail -/
 theorem plainReject (env : Env) : ∀ (t : Ty) (v : V), plain t = true → wellTyped env t v = true →
-    inhabits env t v = false → lossless env t → ∃ e, arrowRT env (infer t) v = .error e
+    inhabits env t v = false → lossless env t v → ∃ e, arrowRT env (infer t) v = .error e
   | .int w, v, _, hw, hi, _ => by
     cases v <;> simp_all [wellTyped, inhabits, infer, arrowRT]
   | .f64, v, _, hw, hi, _ => by cases v <;> simp_all [wellTyped, inhabits]
@@ -52,7 +52,7 @@ theorem plainReject (env : Env) : ∀ (t : Ty) (v : V), plain t = true → wellT
       | none => exact ⟨.valueError, by simp [infer, arrowRT, hn]⟩
       | some r =>
         obtain ⟨a', b'⟩ := r
-        have := hl a b a' b' hn
+        have := (by simpa [lossless] using hl : ∀ a' b', env.native k p s a b = some (a', b') → nativeSame k a b a' b' = true) a' b' hn
         simp [inhabits, hn, this] at hi
     | _ => simp_all [wellTyped]
   | .opt t, v, hp, hw, hi, hl => by
@@ -62,7 +62,7 @@ theorem plainReject (env : Env) : ∀ (t : Ty) (v : V), plain t = true → wellT
       all_goals
         have hp' : plain t = true := by simp_all [plain]
         simp only [wellTyped, inhabits] at hw hi
-        simpa [infer] using plainReject env t _ hp' hw hi hl
+        simpa [infer] using plainReject env t _ hp' hw hi (by simpa [lossless] using hl)
   | .list t, v, hp, hw, hi, hl => by
     cases v with
     | list xs =>
@@ -70,7 +70,7 @@ theorem plainReject (env : Env) : ∀ (t : Ty) (v : V), plain t = true → wellT
       simp only [wellTyped, List.all_eq_true] at hw
       simp only [inhabits] at hi
       obtain ⟨x, hx, hxi⟩ := all_false hi
-      obtain ⟨e, he⟩ := plainReject env t x hp' (hw x hx) hxi hl
+      obtain ⟨e, he⟩ := plainReject env t x hp' (hw x hx) hxi ((by simpa [lossless] using hl : ∀ x ∈ xs, lossless env t x) x hx)
       obtain ⟨e', he'⟩ := mapM_error (f := arrowRT env (infer t)) xs ⟨x, hx, e, he⟩
       exact ⟨e', by simp [infer, arrowRT, he', bind, Except.bind]⟩
     | _ => simp_all [wellTyped]
@@ -99,7 +99,7 @@ theorem mapEntry_error {fk fv : V → R V} {a b : V} (hne : a ≠ .none)
 
 /-- one hop of a value the declared type cannot represent fails (Optional already unwrapped) -/
 theorem hop_reject (env : Env) (u : Ty) (v : V) (aty : ATy) (t : Ty) (ho : isOpt u = false) (hs : supported u = true)
-    (hw : wellTyped env u v = true) (hi : inhabits env u v = false) (hl : lossless env u)
+    (hw : wellTyped env u v = true) (hi : inhabits env u v = false) (hl : lossless env u v)
     (haty : aty = arrowTop u) (hconv : convertForArrow env t v = convertForArrow env u v) :
     ∃ e, trip env aty t v = .error e := by
   subst haty
@@ -139,7 +139,7 @@ theorem hop_reject (env : Env) (u : Ty) (v : V) (aty : ATy) (t : Ty) (ho : isOpt
       have hi' : inhabits env (.list a) (.list xs) = false := by
         simp only [wellTyped, Bool.and_eq_true] at hw
         simp only [inhabits, hw.2, Bool.and_true] at hi ⊢; exact hi
-      obtain ⟨e, he⟩ := plainReject env (.list a) (.list xs) hp hw' hi' hl
+      obtain ⟨e, he⟩ := plainReject env (.list a) (.list xs) hp hw' hi' (by simpa [lossless] using hl)
       exact trip_error_of_arrow env _ t (.set xs) (.list xs) e (by simp) (hconv.trans (by simp [convertForArrow]))
         (by simpa [arrowTop, unopt, infer] using he)
     | _ => simp_all [wellTyped]
@@ -155,8 +155,8 @@ theorem hop_reject (env : Env) (u : Ty) (v : V) (aty : ATy) (t : Ty) (ho : isOpt
       have hbad : (∃ e, arrowRT env (infer k) p.1 = .error e) ∨ (∃ e, arrowRT env (infer w) p.2 = .error e) := by
         simp only [hwp.2, Bool.and_true, Bool.and_eq_false_iff] at hpi
         rcases hpi with h1 | h2
-        · exact Or.inl (plainReject env k p.1 hpk.1 hwp.1.1 h1 hl.1)
-        · exact Or.inr (plainReject env w p.2 hpk.2 hwp.1.2 h2 hl.2)
+        · exact Or.inl (plainReject env k p.1 hpk.1 hwp.1.1 h1 ((by simpa [lossless] using hl : ∀ p ∈ kvs, lossless env k p.1 ∧ lossless env w p.2) p hp).1)
+        · exact Or.inr (plainReject env w p.2 hpk.2 hwp.1.2 h2 ((by simpa [lossless] using hl : ∀ p ∈ kvs, lossless env k p.1 ∧ lossless env w p.2) p hp).2)
       obtain ⟨e, he⟩ := mapEntry_error (fk := arrowRT env (infer k)) (fv := arrowRT env (infer w)) hne hbad
       obtain ⟨e', he'⟩ := mapM_error (f := mapEntry (arrowRT env (infer k)) (arrowRT env (infer w)))
         (kvs.map (fun p => V.tuple [p.1, p.2])) ⟨_, List.mem_map_of_mem hp, e, he⟩
@@ -165,7 +165,7 @@ theorem hop_reject (env : Env) (u : Ty) (v : V) (aty : ATy) (t : Ty) (ho : isOpt
     | _ => simp_all [wellTyped]
 
 theorem sendParam_reject (env : Env) (t : Ty) (v : V) (hs : supported t = true) (hw : wellTyped env t v = true)
-    (hi : inhabits env t v = false) (hl : lossless env t) : ∃ e, sendParam env t v = .error e := by
+    (hi : inhabits env t v = false) (hl : lossless env t v) : ∃ e, sendParam env t v = .error e := by
   unfold sendParam
   cases t with
   | opt u =>
@@ -176,7 +176,7 @@ theorem sendParam_reject (env : Env) (t : Ty) (v : V) (hs : supported t = true) 
     | _ =>
       all_goals
         simp only [wellTyped, inhabits] at hw hi
-        refine hop_reject env u _ _ (.opt u) hu.1 hu.2 hw hi hl ?_ (convert_opt env u _)
+        refine hop_reject env u _ _ (.opt u) hu.1 hu.2 hw hi (by simpa [lossless] using hl) ?_ (convert_opt env u _)
         cases u <;> simp_all [arrowTop, unopt, isOpt]
   | _ => all_goals exact hop_reject env _ v _ _ (by simp [isOpt]) hs hw hi hl rfl rfl
 
